@@ -14,7 +14,9 @@ RULE = ("[== matrices: every ordered pair of zero / negligible / non-zero terms,
         "float32 / float16 / longdouble / int8..int64 / uint8 / uint16 / bool_, Python bool, Fraction, sympy Integer / Rational / Float mixed with "
         "plain numbers through + - * / ** simplify (and == where the unchanged library defines it), numpy-integer / Fraction divisors and "
         "right operands of -, Fraction / sympy left operands of + - on a term, exponent bounds keeping the narrow type's arithmetic exact; "
-        "augmented assignment; two float routes] op-sequence programs over terms / sums / numbers (+ - * / ** simplify ==, numbers on either side) and the "
+        "augmented assignment; two float routes; ACCUM: 8..64 contributions of modulus 1e-10..1e-8 to one operator string with totals well above / "
+        "below 1e-8 through sum*sum, term*sum, sum*term, sum*number, number*sum, sum/number, ** 2..4, + - in every operand order, simplify, *= +=, "
+        "judged per resulting string; DIVZERO: op / exact zero of every accepted spelling on term / sum / empty sum / numpy-typed coefficients] op-sequence programs over terms / sums / numbers (+ - * / ** simplify ==, numbers on either side) and the "
         "exhaustive table of products of all Pauli strings on <=3 qubits in both orders; non-trivial: a binary step "
         "whose two operands are initial operators that are both non-constant with overlapping qubit supports, or an "
         "initial sum containing a duplicate operator string or a zero coefficient; distinct = distinct canonical JSON")
@@ -29,8 +31,20 @@ TRUSTED = [
     "frozenset(dict.items()) equality is equality of the dicts; hash() of the (round, round, frozenset) tuple does not collide on distinct tuples",
     "round() is round-half-to-even on the exactly representable products coefficient * 1e6",
     "np.kron / @ / np.linalg.matrix_power used by the oracle are the Kronecker / matrix product / power",
+    "per-string clause (_exp_table / _string_check): Pauli strings are a basis of the matrices, XY = iZ, YZ = iX, ZX = iY; the coefficient "
+    "table of the matrix operation is computed in Python complex doubles (relative error 1e-16 per contribution, allowed: 1e-13 * scale)",
 ]
 ASSUMPTIONS = [
+    "CUT-OFF: `to the library's 1e-8 coefficient tolerance` is read as: a result may leave out an operator string whose MERGED coefficient "
+    "in the matrix operation has modulus <= 1e-8 and nothing else (per resulting string, after merging like terms; a - <sum> and ** p apply "
+    "it once per internal product, which is allowed for: _string_check / _pow_slack); kind `accum` keeps every merged total outside "
+    "[0.6e-8, 1.6e-8] so that the verdict does not depend on double rounding at the boundary",
+    "DIVISION BY ZERO: `scalar division denotes the matrix operation` has no instance for the divisor 0 (there is no matrix M / 0, an "
+    "operator with inf / nan coefficients denotes no matrix): op / z for an exact zero z must raise whatever op is (term, sum, empty sum, "
+    "numpy-typed coefficients), and no operation on finite operands whose matrix result is representable may return a non-finite "
+    "coefficient.  Generated zeros: 0, 0.0, 0j, -0.0, complex(-0.0, -0.0), False, Fraction(0).  NOT generated: numpy zeros as DIVISOR "
+    "(np.float64(0), np.complex128(0), numpy integer / bool_ zeros): the unchanged library returns inf / nan operators (and the empty sum "
+    "unchanged) there because 1.0 / <numpy zero> warns instead of raising -- reported as a genuine defect of PauliTerm / PauliSum.__truediv__",
     "NUMBER TYPES (established on the unchanged library, kind `ladder`): a COEFFICIENT may be any Python / numpy scalar, a Fraction or a "
     "real sympy number and + - * / ** simplify() are defined on it (the arithmetic is the type's own: only values whose intermediates "
     "are exact in the narrowest type are generated; sympy a+b*I and products of two sympy-complex RESULTS are not -- numpy cannot "
@@ -224,6 +238,16 @@ def corpus():
         P([S(X0, T([[0, "X"]], -1), Y0, T([[1, "Z"]], 0)), S(), N(0)],
           [st("simplify", 0), st("add", 0, 1), st("mul", 0, 0), st("mul", 1, 0), st("pow", 1, p=0), st("pow", 1, p=2),
            st("eq", 3, 1), st("mul", 0, 2), st("eq", 10, 1)]),
+        # eight contributions of 4.9e-9 (each below the 1e-8 cut-off) to every string of A * A: the totals 3.9e-8 must be there
+        P([S(*[T(o, Fraction(7e-5)) for o in pauli_strings(3) if all(l == "Z" for _, l in o)])],
+          [st("mul", 0, 0), st("pow", 0, p=2)], kind="accum", exact=False),
+        # sixteen like terms of 2e-9 in a hand-built list: simplify / + / * 1 keep 3.2e-8 * Z0; five of them (1e-8 in all) vanish
+        P([S(*[T([[0, "Z"]], Fraction(2e-9)) for _ in range(16)]), T([[1, "X"]], 1), S(*[T([[0, "Z"]], Fraction(1e-9)) for _ in range(5)])],
+          [st("simplify", 0), st("add", 0, 1), st("mul", 1, 0), st("mul", 0, 1), st("simplify", 2), st("sub", 1, 0)], kind="accum", exact=False),
+        # division by an exact zero of every spelling, on a term, a numpy-typed term, a sum and the empty sum: must raise
+        P([T([[0, "X"], [1, "Z"]], 2, 0, "npfloat"), N(0, 0, "negzero")], [st("div", 0, 1)], kind="divzero"),
+        P([S(), N(0, 0, "fr")], [st("div", 0, 1)], kind="divzero"),
+        P([S(X0, T([[1, "Z"]], Fraction(1, 2), 0, "npfloat")), N(0, 0, "complex")], [st("idiv", 0, 1)], kind="divzero"),
         # errors: zero division, negative / non-int exponent, division by an operator
         P([X0, N(0)], [st("div", 0, 1)]),
         P([X0], [st("pow", 0, p=-1)]),
@@ -1647,6 +1671,227 @@ def _routes_case(rng, tier):
     return c
 
 
+# ---- many negligible contributions to ONE operator string that add up (class of C03_r9m3) / division by an exact zero (C03_r9m1)
+ACC_BAND = (0.6e-8, 1.6e-8)   # no merged total is generated this close to the 1e-8 cut-off (the exact model and doubles could disagree)
+
+
+def _acc_strings(rng, nq, kind):
+    """2^nq operator strings closed under the product (one fixed letter per qubit: every pair of strings lands on a string
+    of the family, 2^nq pairs per string), or with all four letters on the first qubit (phases i / -i among the pairs)"""
+    qs = rng.sample(range(0, 6), nq)
+    letters = {q: rng.choice(LETTERS) for q in qs}
+    out = []
+    for mask in range(2 ** nq):
+        out.append(sorted([q, letters[q]] for k, q in enumerate(qs) if mask >> k & 1))
+    if kind == "full1":
+        q0 = qs[0]
+        rest = [[o for o in s_ if o[0] != q0] for s_ in out if not any(o[0] == q0 for o in s_)]
+        out = [sorted(r_ + ([[q0, l]] if l else [])) for r_ in rest for l in (None, "X", "Y", "Z")]
+    return out
+
+
+def _acc_terms(rng, strings, m, eps, phase=(1, 0), sign=1):
+    """m terms on the given strings (round robin: every string m / len(strings) times), coefficients eps * u, u in [0.5, 1.5]"""
+    ts = []
+    for j in range(m):
+        u = Fraction(rng.randrange(32, 97), 64) * sign
+        e = Fraction(eps)
+        ts.append(T(strings[j % len(strings)], e * u * phase[0], e * u * phase[1]))
+    rng.shuffle(ts)
+    return ts
+
+
+def _acc_totals(case):
+    """merged totals of the last result of an accumulation case (oracle arithmetic, exact expected table)"""
+    c = case
+    regs = list(c["vals"])
+    tab = None
+    for s in c["steps"]:
+        va = regs[s["a"]]
+        vb = regs[s["b"]] if "b" in s else None
+        if s["op"] == "eq":
+            regs.append(None); continue
+        tab = _exp_table(s["op"], s, va, vb)
+        if tab is None:
+            return None
+        if s["op"] == "sub" and vb["k"] == "sum":
+            if any(ACC_BAND[0] <= abs(x) <= ACC_BAND[1] for x in _coeff_table(vb).values()):
+                return None
+        regs.append({"k": "sum", "terms": [{"k": "term", "ops": [list(o) for o in k], "c": _c(Fraction(z.real), Fraction(z.imag))}
+                                          for k, z in tab.items()]})
+        if any(ACC_BAND[0] <= abs(x) <= ACC_BAND[1] for x in tab.values()):
+            return None
+    return tab
+
+
+ACC_ROUTES = ["sum*sum", "sum*sum-asym", "square", "A*A", "term*sum", "sum*term", "sum*num", "num*sum", "sum/num", "pow3", "pow4",
+              "add", "sub", "term+sum", "sum+term", "num+sum", "sum-term", "term-sum", "simplify", "imul", "iadd"]
+
+
+def _accum_case(rng, tier, route=None, mode=None):
+    """MANY (8..64) contributions to one operator string, each of modulus in [1e-10, 1e-8] -- at or below the library's cut-off --
+    whose total is well above 1e-8 (mode `above`) or, as a control, well below (mode `below`): through sum*sum, term*sum, sum*term,
+    sum*number, number*sum, sum/number, **2 / **3 / **4, + and - in every operand order, simplify() of a hand-built list, augmented
+    assignment.  The cut-off is per RESULTING string, after the like terms are merged."""
+    route = route or rng.choice(ACC_ROUTES)
+    mode = mode or ("above" if rng.random() < 0.75 else "below")
+    for attempt in range(30):
+        per = rng.choice([8, 8, 16, 16, 32, 64])                      # contributions per resulting string
+        if mode == "above":
+            p = rng.uniform(2.5e-8, 3e-7) / per                        # typical single contribution (u*v averages 1)
+            p = min(max(p, 4.5e-10), 4.2e-9)
+        else:
+            p = rng.uniform(5e-10, 4e-9) / per
+            p = max(p, 1.1e-10) if per <= 16 else p                    # (with 32 / 64 contributions the control goes below 1e-10 each)
+        ph = rng.choice([(1, 0), (1, 0), (-1, 0), (0, 1), (Fraction(3, 4), Fraction(-1, 2))])
+        kind = "full1" if rng.random() < 0.25 else "abelian"
+        g = None
+        if route in ("sum*sum", "sum*sum-asym", "square", "A*A", "pow3", "pow4", "imul"):
+            nq = {8: 3, 16: 4, 32: 5, 64: 6}[per] if route in ("square", "A*A", "pow3", "pow4") else rng.choice([1, 2, 3])
+            if route in ("pow3", "pow4") and nq > 4:
+                nq, per = 3, 8
+                p = min(max(p, 4.5e-10), 4.2e-9)
+            strs = _acc_strings(rng, nq - 1, kind) if (kind == "full1" and nq >= 3) else _acc_strings(rng, nq, "abelian")
+            ns = len(strs)
+            if route in ("square", "A*A", "pow3", "pow4"):
+                per = ns
+                eps = {"square": p ** 0.5, "A*A": p ** 0.5, "pow3": (p / ns) ** (1 / 3), "pow4": (p ** 0.5 / ns) ** 0.5}[route]
+                A = S(*_acc_terms(rng, strs, ns, eps, ph))
+                g = _Prog([A])
+                if route == "A*A":
+                    g("mul", 0, 0)
+                else:
+                    g("pow", 0, p={"square": 2, "pow3": 3, "pow4": 4}[route])
+            else:
+                # hand-built operands holding every string several times: ma * mb pairs on ns strings
+                ma = ns * rng.choice([1, 2]); mb = max(ns, per * ns // ma)
+                ea, eb = (p ** 0.5, p ** 0.5) if route != "sum*sum-asym" else rng.choice([(1.0, p), (p, 1.0), (p * 64, 1 / 64)])
+                A = S(*_acc_terms(rng, strs, ma, ea, ph)); B = S(*_acc_terms(rng, strs, mb, eb))
+                g = _Prog([A, B])
+                if route == "imul":
+                    g("imul", 0, 1)
+                else:
+                    g("mul", 0, 1); g("mul", 1, 0)
+        elif route in ("term*sum", "sum*term", "sum*num", "num*sum", "sum/num"):
+            strs = _acc_strings(rng, rng.choice([1, 2]), "abelian")[1:] or [[]]
+            scale = rng.choice([1.0, 1 / 1024, 1 / 2 ** 20, p])     # the sum's own coefficients may be large or themselves negligible
+            B = S(*_acc_terms(rng, strs, per * len(strs), p / scale, ph))
+            if route in ("term*sum", "sum*term"):
+                other = T(rng.choice(_acc_strings(rng, 2, "abelian")), Fraction(scale))
+            elif route == "sum/num":
+                other = N(Fraction(1 / scale))
+            else:
+                other = N(Fraction(scale))
+            g = _Prog([B, other])
+            g({"sum/num": "div"}.get(route, "mul"), *((1, 0) if route in ("term*sum", "num*sum") else (0, 1)))
+        else:
+            strs = _acc_strings(rng, rng.choice([1, 2]), "abelian")
+            if route in ("num+sum",):
+                strs = [[]] + strs[1:2]
+            m1 = per // 2 if route in ("add", "sub", "iadd") else per - 1
+            A = S(*_acc_terms(rng, strs, max(1, m1) * len(strs), p, ph))
+            sgn = -1 if route in ("sub", "sum-term", "term-sum") else 1
+            if route in ("add", "sub", "iadd"):
+                B = S(*_acc_terms(rng, strs, (per - m1) * len(strs), p, ph, sign=sgn))
+            elif route == "num+sum":
+                B = N(Fraction(p) * ph[0], Fraction(p) * ph[1])
+            elif route == "simplify":
+                B = None
+            else:
+                B = T(strs[-1], Fraction(p) * ph[0] * sgn, Fraction(p) * ph[1] * sgn)
+            g = _Prog([A] + ([B] if B is not None else []))
+            if route == "simplify":
+                g("simplify", 0)
+            elif route == "iadd":
+                g("iadd", 0, 1)
+            elif route in ("add",):
+                g("add", 0, 1); g("add", 1, 0)
+            elif route == "sub":
+                g("sub", 0, 1)
+            elif route in ("term+sum", "num+sum"):
+                g("add", 1, 0)
+            elif route == "sum+term":
+                g("add", 0, 1)
+            elif route == "sum-term":
+                g("sub", 0, 1)
+            else:  # term-sum: B - A with B = -p * string: -(p + sum of A)
+                g("sub", 1, 0)
+        case = g.case("accum")
+        tab = _acc_totals(case)
+        if tab is None:
+            continue
+        top = max([abs(x) for x in tab.values()], default=0.0)
+        if (mode == "above" and top >= 2e-8) or (mode == "below" and top <= ACC_BAND[0]):
+            break
+    case["exact"] = False
+    case["route"] = route
+    case["mode"] = mode
+    case["per_string"] = per
+    return case
+
+
+DIV_ZEROS = [("int", "0"), (None, "0.0"), ("complex", "0j"), ("negzero", "-0.0"), ("negzeroj", "complex(-0.0, -0.0)"), ("bool", "False"),
+             ("fr", "Fraction(0)")]
+# NOT generated: numpy zeros as divisors (np.float64(0), np.complex128(0), np.int64(0), np.bool_(False) ...): 1.0 / <numpy zero> is inf
+# with a RuntimeWarning instead of ZeroDivisionError and the UNCHANGED library returns operators with inf / nan coefficients there
+# (reported as a genuine defect; see ASSUMPTIONS)
+
+
+def _divzero_case(rng, tier, zero=None, operand=None):
+    """op / z for an exact zero z of every number type the library accepts as a divisor, op a term / a sum / the empty sum / an
+    all-cancelling sum, with Python, numpy-typed and Fraction coefficients, as a first step and on a result of the arithmetic,
+    through / and /=: there is no matrix M / 0, so no operator may come back"""
+    zty, _ = zero or rng.choice(DIV_ZEROS)
+    operand = operand or rng.choice(["term", "term-np", "term-narrow", "term-int", "sum", "sum-np", "empty", "cancelled", "zero-term",
+                                     "result-sum", "result-term", "term-fr"])
+    pool = _pool(rng, 3)
+    ops1 = rng.choice(_acc_strings(rng, 2, "abelian")[1:])
+    ops2 = rng.choice(_acc_strings(rng, 2, "abelian"))
+    k, l = rng.randrange(1, 17), rng.randrange(-16, 17)
+    Z = N(0, 0, zty)
+    steps_before = []
+    if operand == "term":
+        vals = [T(ops1, Fraction(k, 8), Fraction(l, 8) if rng.random() < 0.5 else 0)]
+    elif operand == "term-np":
+        vals = [T(ops1, Fraction(k, 8), Fraction(l, 8), "npcomplex") if rng.random() < 0.5 else T(ops1, Fraction(k, 8), 0, "npfloat")]
+    elif operand == "term-narrow":
+        vals = [T(ops1, Fraction(k, 8), 0, rng.choice(["f32", "c64", "f16", "flg", "clg"]))]
+    elif operand == "term-int":
+        vals = [T(ops1, k, 0, rng.choice(["int", "i8", "i64", "u8"]))]
+    elif operand == "term-fr":
+        vals = [T(ops1, Fraction(k, 8), 0, "fr")]
+    elif operand == "sum":
+        vals = [S(T(ops1, Fraction(k, 8)), T(ops2, Fraction(l or 3, 8), Fraction(k, 8)))]
+    elif operand == "sum-np":
+        vals = [S(T(ops1, Fraction(k, 8), 0, "npfloat"), T(ops2, Fraction(l or 3, 8), 0, rng.choice(["npfloat", "f32", "i8"])))]
+    elif operand == "empty":
+        vals = [S(ty=rng.choice([None, "tuple"]))]
+    elif operand == "cancelled":
+        vals = [S(T(ops1, Fraction(k, 8)), T(ops1, Fraction(-k, 8)))]
+    elif operand == "zero-term":
+        vals = [T(ops1, 0, 0, rng.choice([None, "int", "npfloat"]))]
+    elif operand == "result-sum":
+        vals = [T(ops1, Fraction(k, 8)), T(ops2, Fraction(l or 3, 8))]
+        steps_before = [rng.choice([st("add", 0, 1), st("sub", 0, 0), st("mul", 0, 1), st("sub", 0, 1)])]
+        if steps_before[0]["op"] == "mul":
+            steps_before.append(st("add", 2, 0))
+    else:
+        vals = [T(ops1, Fraction(k, 8)), T(ops2, Fraction(l or 3, 8), 0, rng.choice([None, "npfloat"]))]
+        steps_before = [st("mul", 0, 1)]
+    g = _Prog(vals + [Z])
+    zi = len(vals)
+    target = 0
+    for s in steps_before:
+        target = g(s["op"], s["a"], s.get("b"))
+    g(rng.choice(["div", "div", "idiv"]), target, zi)
+    c = g.case("divzero")
+    c["zero"] = zty or "float"
+    c["operand"] = operand
+    if any(t.get("ty") in LADDER_ALL for v in vals for t in ([v] if v["k"] == "term" else v["terms"])):
+        c["no_selfeq"] = True
+    return c
+
+
 def _malformed(rng):
     pool = [0, 1, 2]
     a = _term(rng, pool)
@@ -1716,6 +1961,16 @@ def generate(rng, tier):
             cases.append(_ladder_case(rng, tier, fam))
     for _ in range(60 if big else 12):
         cases.append(_ladder_case(rng, tier))
+    # many negligible contributions adding up: every route once above the cut-off on every run, then seeded ones (incl. controls)
+    for route in ACC_ROUTES:
+        cases.append(_accum_case(rng, tier, route, "above"))
+    for _ in range(120 if big else 24):
+        cases.append(_accum_case(rng, tier))
+    # division by an exact zero: every zero type on every run, then seeded (zero, operand) combinations
+    for z in DIV_ZEROS:
+        cases.append(_divzero_case(rng, tier, zero=z))
+    for _ in range(120 if big else 30):
+        cases.append(_divzero_case(rng, tier))
     return cases
 
 
@@ -1753,6 +2008,10 @@ def _num(c, ty=None):
         if v is not None:
             return v
         ty = None
+    if ty == "negzero" and re == 0 and im == 0:
+        return -0.0
+    if ty == "negzeroj" and re == 0 and im == 0:
+        return complex(-0.0, -0.0)
     if ty == "int":
         return int(re)
     if ty == "bool":
@@ -1819,6 +2078,21 @@ def _fp(o):
         return (tuple(sorted(o._ops.items())), complex(c))
     if isinstance(o, PauliSum):
         return tuple(_fp(t) for t in o.terms)
+    return None
+
+
+def _nonfinite(r):
+    import cmath
+    from orquestra.quantum.operators import PauliSum, PauliTerm
+
+    if isinstance(r, (PauliTerm, PauliSum)):
+        for t in r.terms:
+            try:
+                z = complex(t.coefficient)
+            except Exception:  # noqa: BLE001
+                continue
+            if not cmath.isfinite(z):
+                return repr(r)[:200]
     return None
 
 
@@ -1916,6 +2190,10 @@ def run_impl(case):
                 if f != fps[j]:
                     fps[j] = f
                     changed.append([i, j, _canon(o)])
+        bad = _nonfinite(r)
+        if bad is not None:
+            # an operator with an inf / nan coefficient denotes no matrix: reported as it is, the program ends here
+            results.append({"k": "nonfinite", "repr": bad}); break
         regs.append(r)
         fps.append(_fp(r))
         results.append("poke" if op == "poke" else _canon(r))
@@ -2223,8 +2501,129 @@ def _sp_moved(v0, v1, pos, rows):
     return worst
 
 
+_PHASE = {("X", "Y"): 1j, ("Y", "Z"): 1j, ("Z", "X"): 1j, ("Y", "X"): -1j, ("Z", "Y"): -1j, ("X", "Z"): -1j}
+
+
+def _prod_phase(ka, kb):
+    """the phase of the product of two Pauli strings: XY = iZ, YZ = iX, ZX = iY (and -i the other way round), per qubit"""
+    d = dict(ka)
+    ph = 1
+    for q, p in kb:
+        if q in d and d[q] != p:
+            ph *= _PHASE[(d[q], p)]
+    return ph
+
+
+def _tab_mul(ta, tb):
+    out = {}
+    for x, cx in ta.items():
+        for y, cy in tb.items():
+            k = _prod_key(x, y)
+            out[k] = out.get(k, 0) + _prod_phase(x, y) * cx * cy
+    return out
+
+
+def _exp_table(op, s, va, vb):
+    """operator string -> coefficient of the matrix operation on the operands, like terms merged, nothing left out
+    (Pauli strings are linearly independent: this IS the matrix operation, written in the Pauli basis); None: not computed"""
+    op = IOPS.get(op, op)
+    ta = _coeff_table(va)
+    if op == "simplify":
+        return ta
+    if op == "pow":
+        p = int(s["p"])
+        if p > 8 or len(ta) ** min(p, 3) > 20000:
+            return None
+        out = {(): 1}
+        for _ in range(p):
+            out = _tab_mul(ta, out)
+        return out
+    tb = _coeff_table(vb)
+    if op in ("add", "sub"):
+        sg = 1 if op == "add" else -1
+        out = dict(ta)
+        for k, x in tb.items():
+            out[k] = out.get(k, 0) + sg * x
+        return out
+    if op == "mul":
+        if len(ta) * len(tb) > 20000:
+            return None
+        return _tab_mul(ta, tb)
+    if op == "div":
+        z = tb[()]
+        return {k: x / z for k, x in ta.items()}
+    return None
+
+
+def _pow_slack(p, n1a, nstr):
+    """what the 1e-8 cut-off applied after EVERY product of square-and-multiply can move one coefficient of a ** p by"""
+    N_ = max(1.0, n1a)
+    if p <= 1:
+        return 0.0
+    if p % 2:
+        return N_ * _pow_slack(p - 1, n1a, nstr) + DROP
+    e = _pow_slack(p // 2, n1a, nstr)
+    return 2 * N_ ** (p // 2) * e + nstr * e * e + DROP
+
+
+def _string_check(op, s, va, vb, r, nq):
+    """the 1e-8 cut-off is per RESULTING operator string, after like terms are merged: (string, expected, got, allowed) of the first
+    string whose coefficient in the result is further from the coefficient of the matrix operation than the cut-off explains"""
+    exp = _exp_table(op, s, va, vb)
+    if exp is None:
+        return None
+    got = _coeff_table(r)
+    rkeys = set(_keys(r))
+    n1a = _n1(va)
+    slack, per = 0.0, {}
+    if op in ("add", "sub"):
+        scale = n1a + _n1(vb)
+        if op == "sub" and vb["k"] == "sum":   # a - b is a + (-1.0 * b): -1.0 * b leaves out b's own negligible groups first
+            per = {k: DROP for k, x in _coeff_table(vb).items() if abs(x) <= DROP}
+    elif op == "simplify":
+        scale = n1a
+    elif op == "mul":
+        scale = n1a * _n1(vb)
+    elif op == "div":
+        re, im = _cfr(vb["c"])
+        scale = n1a / abs(complex(float(re), float(im)))
+    else:
+        p = int(s["p"])
+        scale = max(1.0, n1a) ** max(p, 1)
+        tab = _coeff_table(va)
+        if any(abs(x) <= DROP for x in tab.values()):
+            return None      # a ** p starts from a * identity, which leaves out a's own negligible groups: judged on the matrix only
+        if p >= 2:
+            slack = _pow_slack(p, n1a, 4 ** nq) - DROP
+    nops = max(1, int(s["p"])) if op == "pow" else 1
+    for k in set(exp) | set(got):
+        e, g_ = exp.get(k, 0), got.get(k, 0)
+        allowed = ROUND * nops * scale + slack + per.get(k, 0.0) + (DROP if (r["k"] == "sum" and k not in rkeys) else 0.0)
+        if not abs(g_ - e) <= allowed:
+            return k, e, g_, allowed
+    return None
+
+
 DROP = 1.000001e-8   # a like-term group whose merged coefficient has modulus <= 1e-8 is what "simplified" leaves out
 ROUND = 1e-13        # double rounding of a handful of operations, relative to the size of the operands
+
+
+def _finite_scale(op, s, va, vb):
+    """bound on the entries of the matrix operation on the operands (is the true result representable at all?)"""
+    try:
+        n1a = _n1(va)
+        if op in ("add", "sub"):
+            return n1a + _n1(vb)
+        if op == "mul":
+            return n1a * _n1(vb)
+        if op == "div":
+            re, im = _cfr(vb["c"])
+            return n1a / abs(complex(float(re), float(im)))
+        if op == "pow":
+            return max(1.0, n1a) ** int(s["p"])
+        return n1a
+    except (OverflowError, ZeroDivisionError):
+        return float("inf")
 
 
 def _allowance(op, s, va, vb, r, nq):
@@ -2348,9 +2747,20 @@ def oracle(case, out):
         indomain = (op in ("add", "sub", "mul", "eq") and not (ka == "num" and kb == "num")) or op == "simplify" \
             or (op == "div" and kb == "num" and ka != "num" and _cfr(regs[s["b"]]["c"]) != (0, 0)) \
             or (op == "pow" and "p" in s and s["p"] >= 0 and ka != "num")
+        divzero = op == "div" and kb == "num" and ka != "num" and _cfr(regs[s["b"]]["c"]) == (0, 0)
+        if divzero and not isinstance(r, str):
+            # scalar division denotes the division of the matrix by the scalar: there is no matrix M / 0 (and an operator with
+            # inf / nan coefficients denotes no matrix), so a division by an exact zero must not hand back an operator
+            return ("div-by-zero-returns:" + sig, f"{desc}: division by the exact zero returned "
+                                                  f"{common.canon(r)[:200]} instead of raising: there is no matrix M / 0")
         if isinstance(r, str):
             if indomain:
                 return ("raise-in-domain:" + sig, f"{desc}: raised {r} on an in-domain operation")
+            break
+        if isinstance(r, dict) and r.get("k") == "nonfinite":
+            if indomain and _finite_scale(op, s, regs[s["a"]], regs[s["b"]] if "b" in s else None) < 1e300:
+                return ("nonfinite-coefficient:" + sig, f"{desc}: the result {r['repr']} has a non-finite coefficient although the "
+                                                        f"matrix operation on these (finite) operands is a finite matrix")
             break
         pending = []
         for j, v in (changes.get(i, []) if indomain else []):
@@ -2436,6 +2846,14 @@ def oracle(case, out):
         if not err <= allowed:
             return (sig, f"{desc}: result {common.canon(r)[:200]} denotes a matrix that differs from the matrix "
                          f"{op} of the operands by {err:.3g} (the 1e-8 coefficient tolerance explains at most {allowed:.3g})")
+        if not sparse:
+            bad = _string_check(op, s, regs[s["a"]], regs[s["b"]] if "b" in s else None, r, len(qubits))
+            if bad is not None:
+                k2, e_, g_, al_ = bad
+                return ("string-coefficient:" + sig,
+                        f"{desc}: in the result {common.canon(r)[:200]} the operator string {list(k2)} has the coefficient {g_:.6g}"
+                        f"{'' if (r['k'] != 'sum' or k2 in set(_keys(r))) else ' (left out)'}, the matrix {op} of the operands has "
+                        f"{e_:.6g} there: off by {abs(g_ - e_):.3g}, the 1e-8 cut-off per resulting string explains at most {al_:.3g}")
         se = out.get("selfeq", {}).get(str(i))
         if r["k"] == "sum" and se is not None and se != [True, True]:
             # equality between simplified operators coincides with equality of the denoted matrices: the returned sum and
@@ -2483,7 +2901,21 @@ def distribution(cases, outs):
             for t in ([v] if v["k"] in ("term", "num") else v.get("terms", [])):
                 key = ("scalar:" if v["k"] == "num" else "coefficient:") + str(t.get("ty") or "float/complex")
                 tys[key] = tys.get(key, 0) + 1
-    return {"step_ops": ops, "errors_hit": errs, "initial_value_kinds": kinds, "max_qubit_index_plus_1": width,
+    acc, dz = {}, {}
+    for case, out in zip(cases, outs):
+        if case.get("kind") == "accum" and "route" in case:
+            kept = None
+            if isinstance(out, dict):
+                last = [r for r in out.get("results", []) if isinstance(r, dict)]
+                kept = bool(last) and len(last[-1].get("terms", [0])) > 0
+            key = f"{case['route']}:{case['mode']}:{case['per_string']}/string:{'kept' if kept else 'empty'}"
+            acc[key] = acc.get(key, 0) + 1
+        if case.get("kind") == "divzero" and "zero" in case:
+            res = out.get("results", ["?"])[-1] if isinstance(out, dict) else "?"
+            key = f"{case['operand']}/{case['zero']}:{res if isinstance(res, str) else 'RETURNED'}"
+            dz[key] = dz.get(key, 0) + 1
+    return {"accumulating_negligible_contributions": dict(sorted(acc.items())), "division_by_exact_zero": dict(sorted(dz.items())),
+            "step_ops": ops, "errors_hit": errs, "initial_value_kinds": kinds, "max_qubit_index_plus_1": width,
             "log2_coefficient_magnitude_range": [round(math.log2(min(mags)), 1), round(math.log2(max(mags)), 1)] if mags else None,
             "objects_changed_under_a_step(pokes)": objects_changed,
             "max_initial_sum_terms": nterms, "inexact_cases": sum(1 for c in cases if c.get("exact") is False),
